@@ -32,6 +32,10 @@ def run(k, tier='quick', pid=None):
         if os.path.exists(SCRATCH):
             shutil.rmtree(SCRATCH)
         subprocess.run(['rsync', '-a', '--exclude', 'target', '--exclude', '.git', REPO.rstrip('/') + '/', SCRATCH + '/'], check=True)
+        # (same reason as in replay.py: never reuse a build of a different copy of the sources)
+        for root, _dirs, files in os.walk(os.path.join(SCRATCH, 'src')):
+            for fn in files:
+                os.utime(os.path.join(root, fn), None)
         with open(os.path.join(SCRATCH, 'src', 'lib.rs'), 'a') as fh:
             fh.write('\n#[cfg(kani)] mod verif_kani { include!("%s"); }\n' % src)
         env = dict(os.environ, CARGO_NET_OFFLINE='true', CARGO_TARGET_DIR='/repo/target/vx-kani')
